@@ -103,8 +103,13 @@ func NewIPPool(network string, gateway string) (*IPPool, error) {
 	return pool, nil
 }
 
-// Allocate allocates an IP for a session
+// Allocate allocates an IP for a session.
+// A session that already holds an address gets the same address again
+// (e.g. a retransmitted PAP Authenticate-Request re-enters IPCP start).
 func (p *IPPool) Allocate(sessionID string) net.IP {
+	if ip, ok := p.allocated[sessionID]; ok {
+		return ip
+	}
 	if len(p.available) == 0 {
 		return nil
 	}
